@@ -54,11 +54,19 @@ def configs(tier):
                            ns=list(ns), fork=fn.startswith("spike_pro") or fn.startswith("spike_dist"),
                            cost=30 * 8 ** sum(ns), validate=2, split_forks=(7 if sum(ns) >= 3 else None))
                 if not (fn.startswith("spike_pro") or fn.startswith("spike_dist")) and sum(ns) <= 3:
-                    # MRTS='auto' must be honoured identically through every call form
-                    yield dict(name="real-auto-%s-%s-%s" % (be, fn, "".join(map(str, ns))), what="real", backend=be,
-                               fn=fn, ns=list(ns), auto=True, cost=60 * 8 ** sum(ns), validate=2,
-                               split_forks=(7 if sum(ns) >= 3 else None))
-
+                    # MRTS='auto' must be honoured identically through every call form; one index
+                    # list per configuration (each list has its own threshold = its own sqrt symbol)
+                    for idx in ([2, 0], [1, 2], [2, 1, 0]):
+                        if tier == "quick":
+                            if fn not in ("isi_distance", "spike_sync", "spike_train_order", "spike_sync_profile",
+                                          "spike_directionality_values", "isi_distance_matrix",
+                                          "spike_directionality_matrix"):
+                                continue
+                            if len(idx) == 3 and sum(ns) > 2:
+                                continue
+                        yield dict(name="real-auto-%s-%s-%s-idx%s" % (be, fn, "".join(map(str, ns)), "".join(map(str, idx))),
+                                   what="real", backend=be, fn=fn, ns=list(ns), auto=True, idx=idx,
+                                   cost=60 * 8 ** sum(ns), validate=2, split_forks=(7 if sum(ns) >= 3 else None))
 
 def controls(tier):
     yield dict(name="control-position-vs-index", what="stub", backend="py", fn="isi_distance_matrix", K=4, kwmode="plain",
@@ -135,7 +143,7 @@ def program(E, cfg):
         ts, te = hx.edges(E)
         S = [hx.spikes(E, "abc"[k], n, ts, te) for k, n in enumerate(cfg["ns"])]
         L = [hx.train(s, ts, te) for s in S]
-        for idx in ([2, 0], [1, 2], [2, 1, 0], [1, 0, 2]):
+        for idx in ([cfg["idx"]] if cfg.get("idx") else ([2, 0], [1, 2], [2, 1, 0], [1, 0, 2])):
             call_forms(E, f, L, idx, {"MRTS": "auto"} if cfg.get("auto") else {}, star)
         E.observe("done", 1)
         return
